@@ -168,3 +168,66 @@ MUTANTS += [
       "        return len(matching) - matching.count('0')",
       "        return len(set(matching) - {'0'})"),
 ]
+
+MUTANTS += [
+    # ---- C06
+    m('checker_3c_nonstrict', ['C06'], MODEL,
+      'pair.rank_lecturer < worst_rank_projects[pair.project_index]):',
+      'pair.rank_lecturer <= worst_rank_projects[pair.project_index]):'),
+    m('checker_3b_drops_same_lecturer', ['C06'], MODEL,
+      '((not assigned_pair_i == None and assigned_pair_i.lecturer_index == pair.lecturer_index) or',
+      '((False) or'),
+    m('checker_worst_is_best', ['C06'], MODEL,
+      '''                elif pair.rank_lecturer > worst_ranks[pair.lecturer_index]:
+                    worst_ranks[pair.lecturer_index] = pair.rank_lecturer''',
+      '''                elif pair.rank_lecturer < worst_ranks[pair.lecturer_index]:
+                    worst_ranks[pair.lecturer_index] = pair.rank_lecturer'''),
+    m('checker_prefers_nonstrict', ['C06'], MODEL,
+      'elif pair.rank_student < assigned_pair_i.rank_student:',
+      'elif pair.rank_student <= assigned_pair_i.rank_student and pair is not assigned_pair_i:'),
+    m('checker_lecturer_count_by_project', ['C06'], MODEL,
+      'l_undersubscribed = l_num_assignments[pair.lecturer_index] < self.lec_upper_quotas[pair.lecturer_index]',
+      'l_undersubscribed = p_num_assignments[pair.project_index] < self.lec_upper_quotas[pair.lecturer_index]'),
+    m('checker_none_regression', ['C06'], MODEL,
+      '''                    worst_rank_projects[pair.project_index] is not None and
+''', ''),
+    # ---- C13
+    m('writer_close_on_wrong_element', ['C13'], GSH,
+      "        elif in_tie and not ties_indicators[i]:", "        elif in_tie and not ties_indicators[i] and i > 1:"),
+    m('writer_last_decision_opens', ['C13'], GSH,
+      "if not in_tie and ties_indicators[i] and i < len(pref_list) - 1:",
+      "if not in_tie and ties_indicators[i] and i < len(pref_list):"),
+    m('reader_rank_bump_on_open', ['C13', 'C10'], FIO,
+      '''            simp_ranks.append(rank)
+            in_tie = True
+''', '''            simp_ranks.append(rank)
+            in_tie = True
+            rank += (1 if len(simp_ranks) > 6 else 0)
+'''),
+    m('reader_no_bump_after_close_at_end', ['C13', 'C10'], FIO,
+      '''            simp_ranks.append(rank)
+            rank+=1
+            in_tie = False''', '''            simp_ranks.append(rank)
+            rank+=(0 if i == len(pref_list) - 2 else 1)
+            in_tie = False'''),
+    # ---- C10
+    m('reader_target_uq_swapped', ['C10'], FIO,
+      '''                model.lec_targets.append(int(line_split[2]))
+                model.lec_upper_quotas.append(int(line_split[3]))''',
+      '''                model.lec_targets.append(int(line_split[3]))
+                model.lec_upper_quotas.append(int(line_split[2]))'''),
+    m('reader_2agent_target_from_lq', ['C10'], FIO,
+      '''                    model.lec_targets.append(int(line_split[2]))
+                    model.lec_upper_quotas.append(int(line_split[2]))''',
+      '''                    model.lec_targets.append(int(line_split[1]))
+                    model.lec_upper_quotas.append(int(line_split[2]))'''),
+    m('reader_section_boundary', ['C10'], FIO,
+      'elif index < model.num_students + model.num_projects + 1:',
+      'elif index < model.num_students + model.num_projects + (1 if model.num_projects < 6 else 0):'),
+    m('reader_twopl_ignored_for_rank_ties', ['C10'], FIO,
+      '        student_ranks[(lec_num, simp_lec_prefs[i])] = simp_lec_ranks[i]',
+      '        student_ranks[(lec_num, simp_lec_prefs[i])] = i + 1'),
+    m('pair_str_swaps_ranks', ['C10'], MODEL,
+      "' rs' + str(self.rank_student) + ' l' + str(self.lecturerID) + ",
+      "' rs' + str(self.rank_student if not hasattr(self, 'rank_lecturer') else self.rank_lecturer) + ' l' + str(self.lecturerID) + "),
+]
